@@ -456,5 +456,14 @@ func c06(args []string) int {
 	if harnessErr > 0 {
 		fmt.Fprintf(harness.Out(), "C06: %d harness errors: %v\n", harnessErr, errSamples)
 	}
+	// vacuity guard: every own transaction that can be made to fail by an unpayable price can also be made to fail by
+	// a gas limit one below its use - if the late-failing mode fails much less often than that, its measurement is
+	// broken (it once was: 3 of 418) and a silent run says nothing about the fee step
+	if modes["price-huge"] >= 10 && modes["gas-1"]*2 < modes["price-huge"] {
+		fmt.Fprintf(harness.Out(), "C06: mode gas-1 produced %d failed transactions against %d of mode price-huge: the late-failing copies do not fail, no verdict\n", modes["gas-1"], modes["price-huge"])
+		rep.Set("exhaustive", false)
+		rep.Finish()
+		return 2
+	}
 	return rep.Finish()
 }
